@@ -672,6 +672,8 @@ class AgainTask (Task):
 
     try:
       nxt = g.send(None)
+    except StopIteration:
+      pass
     except Exception:
       parent.task.re = sys.exc_info()
     else:
